@@ -10,6 +10,7 @@
 import QlibcModel.Encode.Base64
 import QlibcModel.Encode.Query
 import QlibcModel.Props.C17Parsers
+import QlibcModel.Encode.MakewordSpec
 
 namespace Qlibc.Props.C17
 open Qlibc Qlibc.Encode Qlibc.Generated
@@ -39,6 +40,20 @@ theorem makeword_safe (q : Bytes) (stop : UInt8) :
   simp only [makeword, List.length_drop]
   have := (List.takeWhile_sublist (fun x => x != stop) (l := q)).length_le
   omega
+
+/-- makeword_raw_safe: on the exactly sized buffer `s ++ [0]` (`s` NUL-free) `_q_makeword`, with
+    checked reads and writes, returns for EVERY stop byte — `'\0'`, `0x80`, `0xff`, … included: no
+    access outside the `strlen + 1` bytes, both loops end; word and remainder are the list-level
+    `makeword` (the word before the first stop byte, the text behind it). `qparse_queries` and
+    `qconfig_parse_str` hand the caller's separator to this function unchanged. -/
+theorem makeword_raw_safe (s : Bytes) (hs : ∀ d ∈ s, d ≠ 0) (stop : UInt8) :
+    makewordRaw (s ++ [0]) stop = .ok (makeword s stop) := makewordRaw_spec s hs stop
+
+/-- makeword_nul_stop: with the stop byte `'\0'` the terminator is the stop byte — the word is the
+    whole string, the remainder is empty, and the shift loop starts AT the terminator (it must not be
+    stepped over) -/
+theorem makeword_nul_stop (s : Bytes) (hs : ∀ d ∈ s, d ≠ 0) : makewordRaw (s ++ [0]) 0 = .ok (s, []) :=
+  Encode.makeword_nul_stop s hs
 
 /-- the byte-indexed tables have 256 entries -/
 theorem table_lengths : b64MapTbl.length = 256 ∧ hexMapTbl.length = 256 := by decide +kernel
